@@ -40,7 +40,7 @@ N = {'quick': 4000, 'thorough': 400000}
 LEAVES = ['role:a', 'role:b', 'role:compute:admin', 'rule:h1', 'rule:h2', 'rule:ghost', "'Member':%(role.name)s",
           'True:%(user.enabled)s', 'project_id:%(project_id)s', 'http://h/yes', 'https://h:8/no?q=1', 'http://h/%(n)s',
           '@', '!', 'a.b.c:d', '1:1', '1:2', '"dq":%(x)s', 'x:y', 'user_id:%(user_id)s', 'None:%(nil)s', 'is_admin:True',
-          'word', 'role:%(r)s']
+          'word', 'role:%(r)s', 'Role:a', 'ROLE:b', 'Rule:h1', 'RULE:ghost', 'Http://h/yes', 'Is_admin:True', 'True:true']
 HELPERS = {'h1': 'role:a', 'h2': 'role:b and not role:c'}
 
 
